@@ -9,7 +9,9 @@ package main
 import (
 	"flag"
 	"fmt"
+	"runtime"
 	"sort"
+	"strings"
 	"sync"
 
 	"verif/harness/internal/hx"
@@ -35,6 +37,13 @@ func drawParams(k int, r *prng.R, tier string) caseParams {
 	p := caseParams{kind: "crash", n: r.Range(20, 45), pfMille: []int{1000, 600, 300, 120, 50}[r.Intn(5)], hdrs: r.Chance(2, 3)}
 	p.proto.SRH = r.Bool()
 	p.backend, p.replica = "memory", "memory"
+	// a few subjects of the quick tier run on the persistent backends (commit probes, probe.go)
+	switch {
+	case k == 0 || (k > 8 && k%4 == 1):
+		p.backend = "bolt"
+	case k > 8 && k%8 == 3:
+		p.backend = "level"
+	}
 	if tier == "thorough" {
 		p.n = r.Range(20, 60)
 		p.backend = []string{"memory", "bolt", "level"}[r.Intn(3)]
@@ -56,6 +65,8 @@ func drawParams(k int, r *prng.R, tier string) caseParams {
 		if r.Chance(1, 3) {
 			p.target = uint32(2000 + r.Range(0, 5))
 		}
+	case k == 9 || (tier == "thorough" && k%25 == 9): // block and header-hash page garbage collection
+		gclongParams(r, &p)
 	case k == 4: // reset to the current height, only headers to drop
 		p.kind, p.hdrs, p.stopAt = "reset", true, p.n-r.Range(2, 6)
 		p.target = uint32(p.stopAt)
@@ -114,15 +125,26 @@ func runCase(k int, seed uint64, tier string) *caseOut {
 	if p.kind == "page" {
 		steps = pageSchedule(r, uint32(p.n))
 	}
+	var flushAt []uint32
+	if p.kind == "gclong" {
+		steps = nil
+		flushAt = gclongFlushes(r, p.n, p.proto.MTB, p.local.GCP, 600)
+	}
 	// full reference observations are only needed where a node can be recovered: flush heights, reset target, tip
 	want := map[uint32]bool{0: true, uint32(p.n): true, p.target: true}
 	var lastBlk uint32
 	for _, s := range steps {
-		if s.Kind == "blk" {
+		if s.Kind == "blkwait" {
+			want[lastBlk] = true // the flush during the wait stops below the waiting block
+		}
+		if s.Kind == "blk" || s.Kind == "blkwait" {
 			lastBlk = s.H
 		}
-		if s.Kind == "flush" {
+		if s.Kind == "flush" || s.Kind == "flushfail" {
 			want[lastBlk] = true
+		}
+		if s.Kind == "flushfail" {
+			want[lastBlk+1] = true // the next block may arrive during the refused flush
 		}
 	}
 	if p.stopAt != 0 {
@@ -132,6 +154,13 @@ func runCase(k int, seed uint64, tier string) *caseOut {
 	wantF := func(h uint32) bool { return p.local.Timer || want[h] }
 	if p.kind == "page" {
 		withTxs = func(i int) bool { return i <= 6 || i >= p.n-14 }
+	}
+	if p.kind == "gclong" {
+		for _, f := range flushAt {
+			want[f] = true
+		}
+		wantF = func(h uint32) bool { return want[h] }
+		withTxs = func(i int) bool { return i <= 6 || i >= p.n-14 || i%500 < 2 || (i >= 1995 && i <= 2003) }
 	}
 	h, err := buildHistory(r, p.proto, p.n, &c.cnt, withTxs, wantF)
 	if err != nil {
@@ -144,7 +173,7 @@ func runCase(k int, seed uint64, tier string) *caseOut {
 		// keep the steps up to block stopAt, then (maybe) all headers
 		var cut []Step
 		for _, s := range steps {
-			if s.Kind == "blk" && int(s.H) > p.stopAt {
+			if (s.Kind == "blk" || s.Kind == "blkwait") && int(s.H) > p.stopAt {
 				break
 			}
 			cut = append(cut, s)
@@ -157,18 +186,36 @@ func runCase(k int, seed uint64, tier string) *caseOut {
 		if sr != nil {
 			sr.cleanup()
 		}
-		sr, err = runSubject(h, cfg, p.local, steps, p.backend)
+		if p.kind == "gclong" {
+			sr, err = runSubjectGC(h, cfg, flushAt, p.backend)
+		} else {
+			sr, err = runSubject(h, cfg, p.local, steps, p.backend)
+		}
 		if err != nil {
 			c.fail("subject-run", "%v", err)
 			return c
 		}
 		if !sr.timerHit || p.local.Timer {
-			break
+			break // (a timer-driven subject is not re-run: gclong takes seconds, its tie lines are dropped instead)
 		}
 		c.cnt.count("subject:timer-interference-retry")
 	}
 	defer sr.cleanup()
+	for _, f := range sr.fails {
+		c.fail(f.key, "%s", f.msg)
+	}
+	c.cnt.add("subject:block-arrived-during-refused-flush", sr.during)
+	c.cnt.add("subject:flush-during-back-pressure-wait", sr.waited)
+	c.cnt.add("subject:back-pressure-wait-not-reached", sr.notWaited)
+	for _, l := range sr.lines {
+		if l[0] == "flushfail" {
+			c.cnt.count("subject:refused-flush-" + l[1])
+		}
+	}
 	c.replica = p.replica
+	if p.kind == "gclong" {
+		c.contLimit, c.contFull = 120, 9
+	}
 	c.cnt.count("subject-backend:" + p.backend)
 	c.line(fmt.Sprintf("cfg srh=%v mtb=%d rub=%v gcp=%d", p.proto.SRH, h.MTB, p.local.RUB, p.local.GCP), "ok")
 	if !sr.timerHit {
@@ -198,10 +245,24 @@ func runCase(k int, seed uint64, tier string) *caseOut {
 		if i > 0 {
 			accepted = sr.batchInfo[i-1].accepted
 		}
-		checkPrefix(c, h, cfg, len(bs), accepted, false, i, copyDB(db), skip, "")
+		tag := ""
+		if i > 0 && sr.batchInfo[i-1].phase == "wait" && cfg.RemoveUntraceableBlocks {
+			// a flush inside storeBlock of a node whose MPT counts references (known finding rcwait-continue-addblock)
+			tag = "rcwait-"
+			c.cnt.count("crashpoint:after-flush-inside-block-rc-mpt")
+		} else if i > 0 && sr.batchInfo[i-1].phase == "wait" {
+			c.cnt.count("crashpoint:after-flush-inside-block")
+		}
+		checkPrefix(c, h, cfg, len(bs), accepted, false, i, copyDB(db), skip, tag)
 	}
 	if p.kind == "reset" || p.kind == "page" {
 		resetScenario(c, h, cfg, sr, p.target, skip)
+	}
+	checkSplits(c, h, cfg, sr, len(bs), p.target, skip)
+	if sr.timerHit {
+		// the subject's own lines were dropped, so the model knows nothing of this chain: no tie line of the
+		// case (reset batches included) is comparable
+		c.lines = nil
 	}
 	c.seen = append(c.seen, fmt.Sprintf("%s/%d/%d/%v", p.kind, p.n, len(bs), p.proto))
 	c.samp = append(c.samp, fmt.Sprintf("%s n=%d batches=%d srh=%v pf=%d hdrs=%v target=%d fails=%d", p.kind, p.n, len(bs), p.proto.SRH, p.pfMille, p.hdrs, p.target, len(c.fails)))
@@ -231,7 +292,7 @@ func main() {
 			defer func() {
 				if r := recover(); r != nil {
 					c := &caseOut{k: k, cnt: counters{m: map[string]int{}}}
-					c.fail("harness-panic", "%v", r)
+					c.fail("harness-panic", "%v at %s", r, panicSite())
 					res[i] = c
 				}
 			}()
@@ -262,6 +323,24 @@ func main() {
 			o.Sample(s)
 		}
 	}
+}
+
+// panicSite names the innermost frames of this package on the panicking stack.
+func panicSite() string {
+	var sb strings.Builder
+	pcs := make([]uintptr, 32)
+	fr := runtime.CallersFrames(pcs[:runtime.Callers(3, pcs)])
+	for n := 0; n < 4; {
+		f, more := fr.Next()
+		if strings.HasPrefix(f.Function, "main.") {
+			fmt.Fprintf(&sb, "%s:%d ", f.Function, f.Line)
+			n++
+		}
+		if !more {
+			break
+		}
+	}
+	return sb.String()
 }
 
 // pageSchedule: sparse flushes far from the header-hash page boundary, dense ones around it.
